@@ -1,8 +1,8 @@
 #!/bin/bash
 # matrix.sh [tier]: every seeded change against the check of its own property, each in its own scratch worktree of /repo HEAD
 # (checks run with --repo <worktree>; /repo itself is not touched). Results -> selftest/RESULTS.md
-tier=${1:-quick}
-mkdir -p /tmp/mx; out=/verif/selftest/RESULTS.md
+tier=${1:-quick}; pat=${2:-.}
+mkdir -p /tmp/mx; out=/verif/selftest/RESULTS${2:+_part}.md
 run_one() {
   id=$1; prop=${id:0:3}; wt=/tmp/mx/$id
   rm -rf $wt; git -C /repo worktree add -f -q $wt HEAD || { echo "| $id | $prop | worktree failed |"; return; }
@@ -14,5 +14,5 @@ run_one() {
 }
 export -f run_one
 { echo "# Seeded changes vs checks ($tier tier, $(date -u +%FT%TZ), repo $(git -C /repo rev-parse --short HEAD))"; echo; echo "| seed | property | check exit | VIOLATION lines | failing clauses |"; echo "|---|---|---|---|---|"; 
-  ls /verif/seeded | xargs -P 3 -I{} bash -c "run_one {} $tier" | sort; } > $out.tmp && mv $out.tmp $out
+  ls /verif/seeded | grep -E "$pat" | xargs -P 3 -I{} bash -c "run_one {} $tier" | sort; } > $out.tmp && mv $out.tmp $out
 cat $out
